@@ -292,15 +292,18 @@ theorem heap_handle_live_abs (h h' : Heap) (root x v : Addr) (d : AMap Node) (vn
   rw [← h1] at he
   exact addAtSegsH_refines hi hs hap hrl hvl hd hv (by intro e; rw [e] at hl; cases hl) he
 
-/-- HANDLES STAY ATTACHED (frame at pointer level): in a tree-shaped document, `AddValueAt(ps, v)`
-    does not move what `Lookup(qs)` finds when the two paths diverge by key after a common prefix
-    (`Diverge`, as in `addValueAt_frame`): the handle obtained at `qs` is still the node stored there —
-    pointer-identical, not merely equal in content. -/
+/-- HANDLES STAY ATTACHED (frame at pointer level): in a tree-shaped document, `AddValueAt(ps, v)` and
+    `RemoveAt(ps)` (last component a plain member name, the domain of remove paths) do not move what
+    `Lookup(qs)` finds when the two paths diverge by key after a common prefix (`Diverge`, as in
+    `addValueAt_frame`): the handle obtained at `qs` is still the node stored there — pointer-identical,
+    not merely equal in content.  With `heap_handle_live` this covers writes made through OTHER handles. -/
 theorem heap_handle_stays (h h' : Heap) (rank : Addr → Nat) (c v x : Addr) (ps qs : List String)
     (hc : h.Closed) (hr : h.RankedBy rank) (hn : h.NilOk) (hm : h.MapsOk) (hs : SibSep h c) (hv : v < h.size)
-    (hcl : c < h.size) (hd : Diverge ps qs) (he : addAtSegsH h c ps v = some h')
-    (hl : lookupSegsH h c qs = some x) : lookupSegsH h' c qs = some x :=
-  addAtSegsH_lookup_frame hc hr hn hm hv ps qs hd c h' x hs hcl he hl
+    (hcl : c < h.size) (hd : Diverge ps qs) (hl : lookupSegsH h c qs = some x) :
+    (addAtSegsH h c ps v = some h' → lookupSegsH h' c qs = some x) ∧
+    (LastPlain ps → removeAtSegsH h c ps = some h' → lookupSegsH h' c qs = some x) :=
+  ⟨fun he => addAtSegsH_lookup_frame hc hr hn hm hv ps qs hd c h' x hs hcl he hl,
+   fun hlp he => removeAtSegsH_lookup_frame hc hr ps qs hd hlp c h' x hs he hl⟩
 
 /-- `SibSep` cannot be dropped: when ONE container object is attached at two places
     (`dagB`: root #2 = {p: #1, q: #1}), `AddValueAt("p.z", v)` also changes what is found below `q` —
